@@ -20,6 +20,8 @@ func init() {
 			{ID: "C15.2", Desc: "read path: one open, one full read", Run: ruleC15_2, MinSites: 1},
 			{ID: "C15.3", Desc: "what is written to the file is private to the Set that wrote it (the encryptor hands out a buffer of its own per call)", Run: func(c *Ctx) { ruleC17_3(c); renameRule(c, "C17.3", "C15.3") }, MinSites: 1},
 			{ID: "C15.4", Desc: "an operation that reported its timeout publishes nothing afterwards (rename / remove under a gate the timeout closes)", Run: func(c *Ctx) { ruleAbandonedNotPublished(c, "C15.4") }, MinSites: 1},
+			{ID: "C15.5", Desc: "Get reads the whole file", Run: func(c *Ctx) { ruleGetReadsWholeFile(c, "C15.5") }, MinSites: 1},
+			{ID: "C15.6", Desc: "temporary names are unique across the connections of a process", Run: func(c *Ctx) { ruleTempNameProcessWide(c, "C15.6") }, MinSites: 1},
 		},
 	})
 }
